@@ -980,6 +980,21 @@ theorem HInv.step (c : Cfg) (h : HState) (op : HOp) (hi : HInv c h) (hop : op.ok
       have := hi.held_ok m hm hne
       exact ⟨this.1, this.2.1⟩
     · exact hi.held_null
+  | clear =>
+    simp only [HState.step]
+    split
+    · exact hi
+    · have hw := hi.wf
+      refine ⟨WF.fresh c h.a.cap h.a.minSeg hw.lo (Nat.le_trans hw.mid hw.hi), ?_, ?_⟩
+      · intro m hm; simp at hm
+      · intro m hm; simp at hm
+  | truncate n =>
+    simp only [HState.step]
+    split
+    · exact hi
+    · have hw := hi.wf
+      exact ⟨⟨hw.segs, hw.sorted, hw.disjoint, hw.lives_in, hw.lo, hw.mid, Nat.le_max_right _ _, hw.none_empty,
+        hw.disc⟩, hi.held_ok, hi.held_null⟩
 
 theorem HInv.run (c : Cfg) (h : HState) (ops : List HOp) (hi : HInv c h) (hops : ∀ o ∈ ops, o.ok) :
     HInv c (h.run c ops) := by
